@@ -430,6 +430,67 @@ fn c11_skip_bytes() {
 	std::mem::forget(r);
 }
 
+//@ harness: c17_reader_take_contract
+//@   props: C17, C11
+//@   tier: quick
+//@   kind: bounded(input length <= 5; block size any usize; every refill size)
+//@   fn: de::read::take::{<ReaderRead<R> as Take>::take, <ReaderRead<io::Take<R>> as IntoLeftAfterTake>::into_left_after_take}
+//@   domain: every input length 0..=5, every declared block size, every number of bytes then read from the block (0..=declared, as far as available)
+//@   post: the sub-reader never yields more than the declared block size; into_left_after_take is Ok iff the whole declared block was consumed (a block whose declared size disagrees with what was read, or that is cut short, is an error) and then the outer reader resumes exactly after the block
+#[kani::proof]
+#[kani::unwind(8)]
+#[kani::stub(alloc::fmt::format, stub_format)]
+fn c17_reader_take_contract() {
+	use super::take::{IntoLeftAfterTake, Take};
+	let buf: [u8; 5] = kani::any();
+	let len: usize = kani::any();
+	kani::assume(len <= 5);
+	let k: usize = kani::any();
+	kani::assume(k >= 1 && k <= 5);
+	let n: usize = kani::any();
+	let rr = ReaderRead::new(Chunked::regular(&buf[..len], k));
+	let mut sub = match rr.take(n) {
+		Ok(s) => s,
+		Err(e) => {
+			std::mem::forget(e);
+			assert!(false, "OBL C17.reader_take.any_usize_block_size_is_accepted_lazily");
+			return;
+		}
+	};
+	let want: usize = kani::any();
+	kani::assume(want <= 6);
+	let mut tmp = [0u8; 6];
+	let mut got = 0usize;
+	// read up to `want` bytes, one read call at a time
+	let mut i = 0;
+	while i < 6 && got < want {
+		match std::io::Read::read(&mut sub, &mut tmp[got..want]) {
+			Ok(0) => break,
+			Ok(m) => got += m,
+			Err(e) => {
+				std::mem::forget(e);
+				break;
+			}
+		}
+		i += 1;
+	}
+	assert!(got <= n && got <= len, "OBL C17.reader_take.sub_reader_limited_to_declared_block_size_and_input");
+	assert!(tmp[..got] == buf[..got], "OBL C17.reader_take.sub_reader_yields_the_blocks_bytes");
+	kani::cover!(got == n && n == 3, "COV block fully consumed");
+	kani::cover!(got < n && got == len, "COV file cut inside the block");
+	match sub.into_left_after_take() {
+		Ok(rest) => {
+			assert!(got == n, "OBL C17.reader_take.leftover_or_truncated_block_is_an_error");
+			assert!(rest.reader.consumed() == n, "OBL C17.reader_take.resumes_exactly_after_the_block");
+			std::mem::forget(rest);
+		}
+		Err(e) => {
+			std::mem::forget(e);
+			assert!(got < n, "OBL C17.reader_take.fully_consumed_block_is_accepted");
+		}
+	}
+}
+
 //@ harness: c11_read_prims_canary
 //@   props: C11, C03, C04, C12
 //@   tier: quick
